@@ -15,6 +15,45 @@ MANIFEST = {
   'technique': "machine-checked proof in Coq (partiality-explicit result type; library results as universally quantified oracle inputs) + vm_compute correspondence + failing-input search in child processes under recover() and a wall-clock limit",
 }
 
+# partial operations inside the modelled functions of parse.go, as the model
+# has them; re-extracted from the source on every run (informational: the
+# correspondence check is what ties model and code, this names new sites)
+MODELLED = {
+  'nodeKindName': ['panic'], 'posAt': [], 'isNull': [], 'newString': [],
+  'checkNotEmpty': [], 'checkSequence': [], 'checkString': [], 'missingExpression': [],
+  'parseExpression': [], 'mayParseExpression': [], 'parseString': [],
+  'parseStringSequence': [], 'parseStringOrStringSequence': [], 'parseBool': [],
+  'parseInt': ['.Error()'], 'parseFloat': ['.Error()'], 'parseMaxParallel': [], 'parseTimeoutMinutes': [],
+  'handleYAMLError': ['index ss[1]', 'assert .(*yaml.TypeError)', '.Error()'],
+}
+
+def panic_site_inventory(repo):
+    import re
+    try:
+        src = open(os.path.join(repo, 'parse.go')).read()
+    except OSError:
+        return {'error': 'parse.go not readable'}
+    found, missing_funcs = {}, []
+    for fn in MODELLED:
+        m = re.search(r'^func (?:\(p \*parser\) )?%s\(.*?^}' % re.escape(fn), src, flags=re.S | re.M)
+        if not m:
+            missing_funcs.append(fn); continue
+        body = re.sub(r'//[^\n]*', '', m.group(0))
+        body = body[body.index('{'):]
+        sites = []
+        sites += ['panic'] * len(re.findall(r'\bpanic\(', body))
+        sites += ['.Error()'] * len(re.findall(r'\.Error\(\)', body))
+        for a in re.findall(r'\.\((\*?[\w.]+)\)', body):
+            sites.append('assert .(%s)' % a)
+        for a in re.findall(r'(?<![\w\]\)])(\w+(?:\.\w+)*)\[([^\]\n:]+)\]', body):
+            if a[0] in ('make', 'map', 'string', 'byte') or a[1].strip() == '':
+                continue
+            sites.append('index %s[%s]' % a)
+        found[fn] = sites
+    diff = {fn: {'source': sorted(found[fn]), 'model': sorted(MODELLED[fn])} for fn in found if sorted(found[fn]) != sorted(MODELLED[fn])}
+    return {'functions': len(found), 'sites_in_source': sum(len(v) for v in found.values()),
+            'functions_not_found': missing_funcs, 'sites_differing_from_model': diff}
+
 def _k(ctx, tag, imports, typ, fn, path, what, ordered=False, shard=250):
     terms = vf.read_lines(path) if os.path.exists(path) else []
     if not terms:
@@ -65,6 +104,10 @@ def run(ctx):
         'traces_validated_against_impl': n1 + n2 + n3, 'disagreements': b1 + b2 + b3,
         'exhaustive': False, 'search': s.get('extra', {}),
     })
+    inv = panic_site_inventory(vf.REPO)
+    ctx.coverage['panic_site_inventory'] = inv
+    if inv.get('functions_not_found') or inv.get('sites_differing_from_model'):
+        ctx.notes.append('informational: the partial operations found in the modelled functions of parse.go differ from the ones the model makes explicit: %s' % json.dumps(inv)[:600])
     ctx.notes.append('partial: yaml.v3 / regexp / template internals, Go stack depth and the components modelled by other properties are covered by the failing-input search only')
     vf.finish(ctx, 'proof', s['oracle_failures'])
 
